@@ -94,7 +94,10 @@ LEVEL_TEXT = ('BufferAsyncCalls is modelled step for step as an executable macro
               'while it lasts and exactly one call, with the whole burst, exactly timeout after the last arrival).  Tied to /repo '
               'by running the real class under a virtual-time loop on the enumerated / random event lists and comparing every '
               'observation with the model inside Coq (vm_compute); the monitor Case_C08.ok re-decides serial / non-empty / '
-              'not-early / exact-burst on the implementation trace.')
+              'not-early / exact-burst on the implementation trace.  monitor_complete: for EVERY timeout and event list the whole '
+              'monitor (serial part and timed walk) accepts the model\'s own trace, so a rejection always means the '
+              'implementation differs from the model; serial_monitor_sound: acceptance by the serial part implies the readable '
+              'statement on any observed trace.')
 LEVEL_NOTE = ('trusted: Coq kernel + vm_compute; no axioms (Print Assumptions: closed under the global context); asyncio primitives '
               'are modelled and validated only by the correspondence runs; harness/buffer_drv.py, harness/vloop.py; '
               'coq/theories/Case_Buffer.v, Case_C08.v.  The forced-flush and kept-waiting disjuncts of call_start_cause are stated '
